@@ -32,7 +32,20 @@ ASSUMPTIONS = [
 ]
 
 DT_SPECS = [{"dt": "0.1"}, {"reciprocal": "10"}, {"dt": "0.05"}, {"dt": "0.2"}, {"dt": "0.25"}, {"dt": "0.125"}, {"dt": "1"},
-            {"reciprocal": "4"}, {"reciprocal": "8"}, {"reciprocal": "5"}, {"reciprocal": "20"}, {"dt": "0.5"}]
+            {"reciprocal": "4"}, {"reciprocal": "8"}, {"reciprocal": "5"}, {"reciprocal": "20"}, {"dt": "0.5"},
+            # reciprocals without a finite decimal expansion, and small binary ones
+            {"reciprocal": "3"}, {"reciprocal": "6"}, {"reciprocal": "7"}, {"reciprocal": "12"}, {"reciprocal": "512"}, {"reciprocal": "16"}]
+
+
+def terminating(spec):
+    """does dt have a finite decimal expansion (then the grid labels are decimal literals and compared exactly)?"""
+    if "dt" in spec:
+        return True
+    n = int(spec["reciprocal"])
+    for p in (2, 5):
+        while n % p == 0:
+            n //= p
+    return n == 1
 
 
 def dt_decimal(spec):
@@ -125,21 +138,23 @@ def check_case(case, with_dsl=True):
         return info, vs
     info["programs"] = 1
     dts = case["dt_spec"]
-    dtkind = ("reciprocal" if "reciprocal" in dts else "plain") + ":" + ("binary" if str(dt_decimal(dts)) in ("1", "0.5", "0.25", "0.125") else "decimal")
+    dtkind = ("reciprocal" if "reciprocal" in dts else "plain") + ":" + ("binary" if str(dt_decimal(dts)) in ("1", "0.5", "0.25", "0.125") else ("decimal" if terminating(dts) else "non-terminating"))
     if abs(model.dt - float(dt_decimal(dts))) > 1e-12 or model.starttime != grid[0] or abs(model.stoptime - grid[-1]) > 1e-9:
         vs.append(Violation("simspecs:" + dtkind, "model has start=%r stop=%r dt=%r, document says start=%s n=%d dt=%r" % (model.starttime, model.stoptime, model.dt, case["start"], case["n"], dts)))
         return info, vs
     from BPTK_Py.util import timerange
     tr = timerange(model.starttime, model.stoptime, model.dt, exclusive=False)
-    if tr != grid:
-        vs.append(Violation("grid:" + dtkind, "timerange of the transpiled model %r, expected %r" % (tr[-3:], grid[-3:])))
+    exact = terminating(dts)
+    if (exact and tr != grid) or (not exact and (len(tr) != len(grid) or any(abs(a - b) > 1e-9 for a, b in zip(tr, grid)))):
+        vs.append(Violation("grid:" + dtkind, "timerange of the transpiled model %r (%d points), expected %r (%d points)" % (tr[-3:], len(tr), grid[-3:], len(grid))))
         return info, vs
+    eval_grid = grid if exact else tr  # for 1/3 etc. the model's own labels are used for evaluation
     try:
         # a fresh instance of the transpiled model queried top-down (empty memo: t-dt chains down to the start)
         fresh = type(model)()
         for nm in names:
             for i in (len(grid) - 1, len(grid) // 2):
-                got = fresh.equation(X.xkey(nm), grid[i])
+                got = fresh.equation(X.xkey(nm), eval_grid[i])
                 info["comparisons"] += 1
                 if not SM.values_agree(got, ref[nm][i], scale, case["n"]):
                     vs.append(Violation("xmile-topdown-vs-euler:%s" % dtkind,
@@ -147,7 +162,7 @@ def check_case(case, with_dsl=True):
                                         % (nm, grid[i], i, case["n"], dts, case["start"], got, ref[nm][i], SM.sym_show(abstract))))
                     raise StopIteration
         for nm in names:
-            for i, t in enumerate(grid):
+            for i, t in enumerate(eval_grid):
                 got = model.equation(X.xkey(nm), t)
                 info["comparisons"] += 1
                 if not SM.values_agree(got, ref[nm][i], scale, case["n"]):
@@ -165,7 +180,7 @@ def check_case(case, with_dsl=True):
     except Exception as e:
         vs.append(Violation("eval-crash:" + type(e).__name__, "evaluation raised %r; model %r" % (e, SM.sym_show(abstract))))
         return info, vs
-    if with_dsl:
+    if with_dsl and exact:
         try:
             m, elems = SM.build_dsl(abstract, name="c04")
             for nm in names:
@@ -254,6 +269,8 @@ def _body(ctx):
         ctx.extra["disagreements_checked"] += info["comparisons"]
         dt = dt_decimal(case["dt_spec"])
         binary = str(dt) in ("1", "0.5", "0.25", "0.125")
+        if not terminating(case["dt_spec"]):
+            binary = False
         nt = ((not binary) and case["n"] >= 4) or any(len(s["inflows"]) + len(s["outflows"]) >= 2 for s in case["stocks"])
         labels = ["dt:" + ("reciprocal" if "reciprocal" in case["dt_spec"] else "plain") + ":" + ("binary" if binary else "decimal")]
         if any(a["kind"] == "gf" for a in case["aux"]):
